@@ -650,6 +650,65 @@ def r8(ctx, r):
                  okdesc="%s::stop: enqueue(shutdown) then join" % last(cls))
 
 
+def r9(ctx, r):
+    """The event dispatcher finds its target through a map fd -> Tag that holds RAW Session*/Listener* pointers.  Whoever closes
+    a session's or listener's descriptor must drop that fd's tag on the same path: the objects are freed right after, the fd
+    number is handed out again by the kernel (at the latest after a restart), and emplace() of the new tag does not replace
+    a stale one — the next event on that number would be dispatched to freed memory."""
+    fb = ctx.fb()
+    nsites = 0
+    for cls in ("iora::network::TcpEngine", "iora::network::UdpEngine"):
+        rec = fb.record(cls)
+        tagf = [x["n"] for x in rec["fields"] if "unordered_map<int" in x.get("t", "") and "Tag" in x.get("t", "")]
+        if len(tagf) != 1:
+            raise AnalysisBroken("%s: fd->Tag map not identified (%s)" % (short(cls), tagf))
+        tagfield = cls + "::" + tagf[0]
+        for f in fb.methods_of(cls):
+            if not f.ok:
+                continue
+            inits = {}
+            for e in f.stmts():
+                if e.node.get("k") == "decl":
+                    for dv in e.node["vars"]:
+                        if dv.get("init") is not None:
+                            inits[dv["d"]] = dv["init"]
+
+            def owned_fd(a, inits=inits):
+                a = strip_casts(a)
+                if a is None:
+                    return None
+                if a.get("k") == "member" and a["n"] in (cls + "::Session::fd", cls + "::Listener::fd"):
+                    return last(a["n"].rsplit("::", 1)[0])
+                if a.get("k") == "var" and a.get("d") in inits:
+                    return owned_fd(inits[a["d"]])
+                return None
+            removals = common.member_calls_on(f, tagfield, ("erase", "clear"))
+            for e in f.stmts():
+                n = e.node
+                if n.get("k") == "call" and n.get("callee") == "close" and n.get("args"):
+                    what = owned_fd(n["args"][0])
+                    if what is None:
+                        continue
+                    nsites += 1
+                    r.instance()
+                    def edge_ok(b, si, tagfield=tagfield):
+                        # "no tag for this fd" (find() == end()) is as good as a removal: nothing is left to dangle
+                        c = strip_casts(b.cond) if b.cond is not None else None
+                        if c is None or c.get("k") not in ("bin", "opcall") or c.get("op") not in ("==", "!="):
+                            return True
+                        if not any(x.get("k") == "mcall" and last(x.get("callee", "")) == "end" and field_of(x.get("obj")) == tagfield for x in walk(c)):
+                            return True
+                        notfound_edge = 0 if c["op"] == "==" else 1
+                        return si != notfound_edge
+                    w1 = search(f, ("entry",), lambda x, e=e: x is e, stop=lambda x: x in removals, eh=False, edge_ok=edge_ok)
+                    w2 = search(f, e, "exit", stop=lambda x: x in removals, eh=False, edge_ok=edge_ok)
+                    r.expect(w1 is None or w2 is None, f, e, "descriptor closed, tag kept", "%s closes a %s's descriptor (`%s`) on a path that never removes the fd's entry from %s (%s): the Tag keeps a raw pointer to "
+                             "the %s that is freed next; when the kernel reuses the number (a restart is enough) emplace() keeps the stale tag and the new socket's events are dispatched to freed memory"
+                             % (short(f.name), what, show(n), tagf[0], witness_str(f, w2) if w2 else "", what), okdesc="%s: %s fd closed together with its tag" % (short(f.name), what))
+    if nsites < 6:
+        raise AnalysisBroken("only %d closes of session/listener descriptors found, expected >= 6" % nsites)
+
+
 def run(ctx, ck):
     ck.run_rule("C05-R1", "lock tables of the engines and the transport", "A1 guarded-by + A3 confinement", lambda r: r1(ctx, r))
     ck.run_rule("C05-R2", "lock-free engine state is I/O-thread confined", "A3 thread-root analysis", lambda r: r2(ctx, r))
@@ -658,4 +717,5 @@ def run(ctx, ck):
     ck.run_rule("C05-R5", "command queue closes atomically; promises are always fulfilled", "A1 same-section + A2", lambda r: r5(ctx, r))
     ck.run_rule("C05-R6", "I/O-thread guards on stop/addListener", "A2", lambda r: r6(ctx, r))
     ck.run_rule("C05-R7", "no Session* use after a call that may free it; self-destruct hand-over order", "A4 typestate + A2", lambda r: r7(ctx, r))
+    ck.run_rule("C05-R9", "closing a session/listener descriptor drops its fd->Tag entry (no dangling dispatch target)", "A2 pairing over the closed set of close() sites, sibling engines", lambda r: r9(ctx, r))
     ck.run_rule("C05-R8", "engine callbacks are invoked only on I/O-thread-confined paths; stop joins", "A3", lambda r: r8(ctx, r))
